@@ -4,7 +4,7 @@ from hypothesis import strategies as st
 from vlib import jasm_io
 from vlib.gen_listing import att_view, listings
 from vlib.objsrc import ALL_LAYOUTS, LAYOUT_ASSUMPTION, LAYOUT_RULE, layout_tag, listing_for, source_tag, sources
-from vlib.refnorm import decode_stream
+from vlib.refnorm import decode_stream, instruction_lines, split_operands
 from vlib.render import render
 from vlib.runner import Eval
 
@@ -17,12 +17,15 @@ RULE = (
     "Inputs: real objdump output for generated code bytes / objects (as C08) and synthetic listings rendered from generated instruction lists. Oracle: "
     "round trip - decoding the stream by its separators ('|' records, '::' after the address, ',' fields, empty last field) must give exactly the parser's "
     "own instruction list (parse_file_lines without 'empty' records; an operand-less instruction is one empty operand field), and no address, mnemonic or operand "
-    "may contain '|', ',' or '::'. Injectivity follows from the round trip. Non-trivial: listing has >= 1 operand-less, >= 1 multi-operand and >= 1 memory-operand "
+    "may contain '|', ',' or '::'; the number of operand fields of a record equals the number of operands on the line as objdump printed it (its operand text split at "
+    "commas outside parentheses; lines that start with a prefix word are left to the open finding F15). Injectivity follows from the round trip. Non-trivial: listing has >= 1 operand-less, >= 1 multi-operand and >= 1 memory-operand "
     "instruction; distinct by hash of the stream."
 )
 RULE += " Real objdump output is taken " + LAYOUT_RULE + "."
 ASSUMPTIONS = ["the parser's own Instruction list is the 'instruction list' the statement talks about", "objdump 2.40 as input source", LAYOUT_ASSUMPTION]
 FLOORS = {"nontrivial-mix": 0.3}
+PREFIX_WORDS = {"lock", "rep", "repz", "repnz", "repe", "repne", "bnd", "notrack", "cs", "ds", "es", "fs", "gs", "ss", "addr16", "addr32", "data16", "data32",
+                "xacquire", "xrelease", "rex"}
 
 
 def budget(tier):
@@ -100,6 +103,24 @@ def _evaluate(case):
     elif got != want:
         k = next((q for q, (x, y) in enumerate(zip(got, want)) if x != y), min(len(got), len(want)))
         ev.dev("round-trip-differs", index=k, decoded=got[k] if k < len(got) else None, parsed=want[k] if k < len(want) else None, lens=[len(got), len(want)])
+    if not ev.deviations and got is not None:
+        # `,` only in separator roles: a comma that belongs inside an operand - (%rax,%rbx,1) - must not come out as a field
+        # separator.  Independent count: the operand text of the line as objdump printed it, split at commas outside parentheses.
+        # Lines that start with a prefix word are left out (open finding F15 decides what their operands are).
+        lines = instruction_lines(text)
+        if len(lines) == len(got):
+            for (addr, t), (a, m, ops) in zip(lines, got):
+                t = t.replace("data16 ", "")
+                toks = t.split(None, 1)
+                if not toks or toks[0] in PREFIX_WORDS or toks[0].startswith(("rex", "{")):
+                    continue
+                optext = (toks[1] if len(toks) > 1 else "").split("#")[0].strip()
+                optext = optext.split(" ")[0] if optext else ""
+                n_line = len(split_operands(optext)) if optext else 0
+                n_stream = 0 if ops == [""] else len(ops)
+                if n_line != n_stream:
+                    ev.dev("operand-count", line=t, operands_in_line=n_line, fields_in_stream=list(ops), address=addr)
+                    break
     if not ev.deviations:
         # with the address-range observer installed the stream must stay a well-formed encoding of the same instructions
         # (only operands of direct call/jmp may be replaced by the tag)
